@@ -14,6 +14,7 @@ mod probes;
 mod rng;
 mod shellrun;
 mod sim;
+mod wakers;
 mod world;
 
 use harness::{CheckOptions, Prop, ReplayFile, Tier};
